@@ -33,8 +33,7 @@ theorem second_moment_sub_eq_cov (X : Mat N D K) (a b : Fin D) :
 /-- **the upper triangle built by `compute_covariance_matrix` is the sample covariance** -/
 theorem covarianceUpper_upper (X : Mat N D K) (a b : Fin D) (hab : a ≤ b) :
     covarianceUpper X (computeMean X) a b = cov X a b := by
-  simp only [covarianceUpper, if_pos hab, sumFin_eq_sum]
-  exact second_moment_sub_eq_cov X a b
+  simp only [covarianceUpper, if_pos hab, cov]
 
 omit [CharZero K] in
 /-- … and the strictly lower triangle is left at zero -/
